@@ -3,6 +3,114 @@
 From Coq Require Import List NArith Bool Lia Arith.
 From Moss Require Import Bytes BytesFacts Segment SegmentFacts Stack.
 
+(* --- facts that do not involve the merge operator ---------------------- *)
+
+  Lemma newest_none upper k :
+    newest upper k = None <-> forall s, In s upper -> find s k = None.
+  Proof.
+    induction upper as [|s r IH]; simpl.
+    - split; auto. intros _ s [].
+    - destruct (find s k) eqn:E.
+      + split; [discriminate|]. intros H. specialize (H s (or_introl eq_refl)). congruence.
+      + rewrite IH. split.
+        * intros H s' [<-|Hin]; auto.
+        * intros H s' Hin. apply H; auto.
+  Qed.
+  Lemma all_keys_in upper k :
+    In k (all_keys upper) <-> exists s, In s upper /\ In k (keys s).
+  Proof.
+    unfold all_keys. induction upper as [|s r IH]; simpl.
+    - split; [tauto|]. intros [s [[] _]].
+    - rewrite kunion_in, IH. split.
+      + intros [H|[s' [H1 H2]]]; eauto.
+      + intros [s' [[<-|H1] H2]]; eauto.
+  Qed.
+  Lemma all_keys_asc upper : asc (all_keys upper).
+  Proof.
+    unfold all_keys. induction upper as [|s r IH]; simpl; [constructor|].
+    apply kunion_asc; auto.
+  Qed.
+  Lemma newest_some_in_all_keys upper k :
+    In k (all_keys upper) <-> newest upper k <> None.
+  Proof.
+    rewrite all_keys_in. split.
+    - intros [s [H1 H2]] Hn. rewrite newest_none in Hn. specialize (Hn s H1).
+      apply find_none_iff in Hn. tauto.
+    - intros Hn. destruct (newest upper k) eqn:E; [|congruence]. clear Hn.
+      induction upper as [|s r IH]; simpl in *; [discriminate|].
+      destruct (find s k) eqn:F.
+      + exists s; split; auto. eapply find_some_key; eauto.
+      + destruct (IH E) as [s' [H1 H2]]. eauto.
+  Qed.
+  Lemma emit_one_key tail upper fg k e : emit_one tail upper fg k = Some e -> fst e = k.
+  Proof.
+    unfold emit_one. destruct (newest upper k); [|discriminate].
+    destruct (tail && Nat.eqb (cursors_at upper k) 1).
+    - intros [= <-]; auto.
+    - destruct o; intros [= <-]; auto.
+  Qed.
+  Lemma emit_all_keys_sub tail incl upper fg ks x :
+    In x (keys (emit_all tail incl upper fg ks)) -> In x ks.
+  Proof.
+    induction ks as [|k r IH]; simpl; auto.
+    destruct (skip_del incl upper k); auto.
+    destruct (emit_one tail upper fg k) eqn:E; auto.
+    simpl. intros [H|H]; auto. apply emit_one_key in E. left; congruence.
+  Qed.
+  Lemma emit_all_asc tail incl upper fg ks :
+    asc ks -> asc (keys (emit_all tail incl upper fg ks)).
+  Proof.
+    induction ks as [|k r IH]; simpl; intros H; [constructor|].
+    pose proof (asc_tail _ _ H) as Ht.
+    destruct (skip_del incl upper k); auto.
+    destruct (emit_one tail upper fg k) eqn:E; auto.
+    simpl. apply asc_cons_intro; auto.
+    intros x Hx. apply emit_all_keys_sub in Hx. apply emit_one_key in E. rewrite E.
+    eapply asc_head_lt; eauto.
+  Qed.
+  Lemma find_emit_all_notin tail incl upper fg ks k :
+    ~ In k ks -> find (emit_all tail incl upper fg ks) k = None.
+  Proof.
+    intros H. apply find_none_iff. intros Hin. apply emit_all_keys_sub in Hin. tauto.
+  Qed.
+  Lemma find_emit_all_in tail incl upper fg ks k :
+    NoDup ks -> In k ks ->
+    find (emit_all tail incl upper fg ks) k =
+      if skip_del incl upper k then None
+      else option_map snd (emit_one tail upper fg k).
+  Proof.
+    induction ks as [|a r IH]; simpl; intros Hn Hin; [destruct Hin|].
+    inversion Hn; subst. destruct Hin as [->|Hin].
+    - destruct (skip_del incl upper k).
+      + apply find_emit_all_notin; auto.
+      + destruct (emit_one tail upper fg k) eqn:E; simpl.
+        * pose proof (emit_one_key _ _ _ _ _ E) as Hk. destruct e as [k' o]; simpl in *; subst.
+          now rewrite beqb_refl.
+        * apply find_emit_all_notin; auto.
+    - assert (a <> k) by (intros ->; tauto).
+      destruct (skip_del incl upper a); auto.
+      destruct (emit_one tail upper fg a) eqn:E; auto.
+      simpl. pose proof (emit_one_key _ _ _ _ _ E) as Hk. destruct e as [k' o]; simpl in *; subst.
+      assert (beqb a k = false) by (apply beqb_false; auto). rewrite H0. auto.
+  Qed.
+  Lemma has_key_geq_false_find s k : has_key_geq s k = false -> find s k = None.
+  Proof.
+    intros H. destruct (find s k) eqn:E; auto. exfalso.
+    apply find_some_key in E. unfold has_key_geq in H.
+    assert (existsb (fun e => bleb k (fst e)) s = true); [|congruence].
+    unfold keys in E. apply in_map_iff in E. destruct E as [e [He Hin]].
+    apply existsb_exists. exists e; split; auto. rewrite He. unfold bleb. now rewrite bcmp_refl.
+  Qed.
+  Lemma cursors_zero_newest upper k : cursors_at upper k = 0 -> newest upper k = None.
+  Proof.
+    unfold cursors_at. induction upper as [|s r IH]; simpl; auto.
+    destruct (has_key_geq s k) eqn:E; simpl; [discriminate|].
+    intros H. rewrite (has_key_geq_false_find _ _ E). auto.
+  Qed.
+  Lemma merge_range_asc tail incl upper fg : asc (keys (merge_range tail incl upper fg)).
+  Proof. apply emit_all_asc, all_keys_asc. Qed.
+
+
 Section WithMerge.
   Variable fm : bytes -> value -> bytes -> value.
   Notation sget := (sget fm).
@@ -16,17 +124,6 @@ Section WithMerge.
   Lemma sget_ext st b1 b2 k : b1 k = b2 k -> sget st b1 k = sget st b2 k.
   Proof. intros H. induction st as [|s st IH]; simpl; auto. now rewrite IH. Qed.
 
-  Lemma newest_none upper k :
-    newest upper k = None <-> forall s, In s upper -> find s k = None.
-  Proof.
-    induction upper as [|s r IH]; simpl.
-    - split; auto. intros _ s [].
-    - destruct (find s k) eqn:E.
-      + split; [discriminate|]. intros H. specialize (H s (or_introl eq_refl)). congruence.
-      + rewrite IH. split.
-        * intros H s' [<-|Hin]; auto.
-        * intros H s' Hin. apply H; auto.
-  Qed.
 
   Lemma sget_newest_none upper lower below k :
     newest upper k = None -> sget (upper ++ lower) below k = sget lower below k.
@@ -65,110 +162,19 @@ Section WithMerge.
 
   (* --- all_keys -------------------------------------------------------- *)
 
-  Lemma all_keys_in upper k :
-    In k (all_keys upper) <-> exists s, In s upper /\ In k (keys s).
-  Proof.
-    unfold all_keys. induction upper as [|s r IH]; simpl.
-    - split; [tauto|]. intros [s [[] _]].
-    - rewrite kunion_in, IH. split.
-      + intros [H|[s' [H1 H2]]]; eauto.
-      + intros [s' [[<-|H1] H2]]; eauto.
-  Qed.
 
-  Lemma all_keys_asc upper : asc (all_keys upper).
-  Proof.
-    unfold all_keys. induction upper as [|s r IH]; simpl; [constructor|].
-    apply kunion_asc; auto.
-  Qed.
 
-  Lemma newest_some_in_all_keys upper k :
-    In k (all_keys upper) <-> newest upper k <> None.
-  Proof.
-    rewrite all_keys_in. split.
-    - intros [s [H1 H2]] Hn. rewrite newest_none in Hn. specialize (Hn s H1).
-      apply find_none_iff in Hn. tauto.
-    - intros Hn. destruct (newest upper k) eqn:E; [|congruence]. clear Hn.
-      induction upper as [|s r IH]; simpl in *; [discriminate|].
-      destruct (find s k) eqn:F.
-      + exists s; split; auto. eapply find_some_key; eauto.
-      + destruct (IH E) as [s' [H1 H2]]. eauto.
-  Qed.
 
   (* --- emit_all -------------------------------------------------------- *)
 
-  Lemma emit_one_key tail upper fg k e : emit_one tail upper fg k = Some e -> fst e = k.
-  Proof.
-    unfold emit_one. destruct (newest upper k); [|discriminate].
-    destruct (tail && Nat.eqb (cursors_at upper k) 1).
-    - intros [= <-]; auto.
-    - destruct o; intros [= <-]; auto.
-  Qed.
 
-  Lemma emit_all_keys_sub tail incl upper fg ks x :
-    In x (keys (emit_all tail incl upper fg ks)) -> In x ks.
-  Proof.
-    induction ks as [|k r IH]; simpl; auto.
-    destruct (skip_del incl upper k); auto.
-    destruct (emit_one tail upper fg k) eqn:E; auto.
-    simpl. intros [H|H]; auto. apply emit_one_key in E. left; congruence.
-  Qed.
 
-  Lemma emit_all_asc tail incl upper fg ks :
-    asc ks -> asc (keys (emit_all tail incl upper fg ks)).
-  Proof.
-    induction ks as [|k r IH]; simpl; intros H; [constructor|].
-    pose proof (asc_tail _ _ H) as Ht.
-    destruct (skip_del incl upper k); auto.
-    destruct (emit_one tail upper fg k) eqn:E; auto.
-    simpl. apply asc_cons_intro; auto.
-    intros x Hx. apply emit_all_keys_sub in Hx. apply emit_one_key in E. rewrite E.
-    eapply asc_head_lt; eauto.
-  Qed.
 
-  Lemma find_emit_all_notin tail incl upper fg ks k :
-    ~ In k ks -> find (emit_all tail incl upper fg ks) k = None.
-  Proof.
-    intros H. apply find_none_iff. intros Hin. apply emit_all_keys_sub in Hin. tauto.
-  Qed.
 
-  Lemma find_emit_all_in tail incl upper fg ks k :
-    NoDup ks -> In k ks ->
-    find (emit_all tail incl upper fg ks) k =
-      if skip_del incl upper k then None
-      else option_map snd (emit_one tail upper fg k).
-  Proof.
-    induction ks as [|a r IH]; simpl; intros Hn Hin; [destruct Hin|].
-    inversion Hn; subst. destruct Hin as [->|Hin].
-    - destruct (skip_del incl upper k).
-      + apply find_emit_all_notin; auto.
-      + destruct (emit_one tail upper fg k) eqn:E; simpl.
-        * pose proof (emit_one_key _ _ _ _ _ E) as Hk. destruct e as [k' o]; simpl in *; subst.
-          now rewrite beqb_refl.
-        * apply find_emit_all_notin; auto.
-    - assert (a <> k) by (intros ->; tauto).
-      destruct (skip_del incl upper a); auto.
-      destruct (emit_one tail upper fg a) eqn:E; auto.
-      simpl. pose proof (emit_one_key _ _ _ _ _ E) as Hk. destruct e as [k' o]; simpl in *; subst.
-      assert (beqb a k = false) by (apply beqb_false; auto). rewrite H0. auto.
-  Qed.
 
   (* --- the tail (single remaining cursor) ------------------------------ *)
 
-  Lemma has_key_geq_false_find s k : has_key_geq s k = false -> find s k = None.
-  Proof.
-    intros H. destruct (find s k) eqn:E; auto. exfalso.
-    apply find_some_key in E. unfold has_key_geq in H.
-    assert (existsb (fun e => bleb k (fst e)) s = true); [|congruence].
-    unfold keys in E. apply in_map_iff in E. destruct E as [e [He Hin]].
-    apply existsb_exists. exists e; split; auto. rewrite He. unfold bleb. now rewrite bcmp_refl.
-  Qed.
 
-  Lemma cursors_zero_newest upper k : cursors_at upper k = 0 -> newest upper k = None.
-  Proof.
-    unfold cursors_at. induction upper as [|s r IH]; simpl; auto.
-    destruct (has_key_geq s k) eqn:E; simpl; [discriminate|].
-    intros H. rewrite (has_key_geq_false_find _ _ E). auto.
-  Qed.
 
   Lemma sget_single_cursor upper lower below k o :
     cursors_at upper k = 1 -> newest upper k = Some o ->
@@ -217,10 +223,6 @@ Section WithMerge.
     apply merge_preserves_view. apply merge_range_ok.
   Qed.
 
-  Lemma merge_range_asc tail incl upper fg : asc (keys (merge_range tail incl upper fg)).
-  Proof. apply emit_all_asc, all_keys_asc. Qed.
-
-  (* --- full compaction: deletions dropped, nothing beneath ------------- *)
 
   Lemma sget_newest_del upper below k :
     newest upper k = Some ODel -> sget upper below k = None.
@@ -228,6 +230,7 @@ Section WithMerge.
     induction upper as [|s r IH]; simpl; [discriminate|].
     destruct (find s k) eqn:E; auto. intros [= ->]. reflexivity.
   Qed.
+
 
   Theorem compact_full_view upper k :
     sget [merge_range false false upper (sget upper no_below)] no_below k
@@ -267,4 +270,6 @@ Section WithMerge.
       destruct (sget upper no_below k); [discriminate|congruence].
     - rewrite find_emit_all_notin; auto. discriminate.
   Qed.
+  (* --- full compaction: deletions dropped, nothing beneath ------------- *)
+
 End WithMerge.
